@@ -43,18 +43,23 @@ impl Float {
             return 0;
         }
 
-        if self.is_inf() {
-            if self.get_sign() {
-                return i64::MIN;
-            } else {
-                return i64::MAX;
-            }
+        // Infinities and values outside of the i64 range saturate.
+        let saturated = if self.get_sign() { i64::MIN } else { i64::MAX };
+        if self.is_inf() || self.get_exp() >= 64 {
+            return saturated;
         }
         let rm = self.get_semantics().get_rounding_mode();
         let val = self.convert_normal_to_integer(rm);
+        let limit = BigInt::one_hot(63);
         if self.get_sign() {
-            -(val.as_u64() as i64)
+            if val > limit {
+                return saturated;
+            }
+            (val.as_u64() as i64).wrapping_neg()
         } else {
+            if val >= limit {
+                return saturated;
+            }
             val.as_u64() as i64
         }
     }
@@ -140,7 +145,13 @@ impl Float {
                 &self.get_mantissa(),
                 -i_exp as usize,
             );
-            if self.need_round_away_from_zero(rm, loss) {
+            // Round only if bits were lost, and decide based on the integer
+            // that is being produced (ties-to-even inspects its parity).
+            let int =
+                Self::new(self.get_semantics(), self.get_sign(), 0, m.clone());
+            if !loss.is_exactly_zero()
+                && int.need_round_away_from_zero(rm, loss)
+            {
                 m.inplace_add(&BigInt::one());
             }
             m
